@@ -18,7 +18,7 @@ Theorem C01_recv_authentic :
          (on_recv : A -> packet -> option (A * option bytes))
          (on_ack : A -> packet -> bytes -> option A),
     (forall x y, H x = H y -> x = y) ->
-    forall (n0 : net A) (ops : list nop) (i : nat) (ci : chain A) (now : N)
+    forall (n0 : net A) (ops : list (nop A)) (i : nat) (ci : chain A) (now : N)
            (p : packet) (pf : proof) (h : N) (c' : chain A) (ev : list event),
       net_init A n0 -> Forall nop_ok ops -> wfp p ->
       nth_error (nrun A H has_route on_recv on_ack n0 ops) i = Some ci ->
@@ -38,7 +38,7 @@ Theorem C01_commitments_explained :
   forall (A : Type) (H : bytes -> bytes) (has_route : bytes -> bool)
          (on_recv : A -> packet -> option (A * option bytes))
          (on_ack : A -> packet -> bytes -> option A)
-         (c : chain A) (o : op) (c' : chain A) (ev log : list event),
+         (c : chain A) (o : op A) (c' : chain A) (ev log : list event),
     op_wf o -> exec A H has_route on_recv on_ack c o = Some (c', ev) ->
     kv_explained H (c_kv A c) log -> kv_explained H (c_kv A c') (log ++ ev).
 Proof. exact exec_explained. Qed.
@@ -74,7 +74,7 @@ Print Assumptions C01_reject_unchanged.
 
 (** non-vacuity: a three-chain run in which a relayed packet is accepted at the
     relay and then at the destination (premises of the theorem are met) *)
-Definition x_ops : list nop :=
+Definition x_ops : list (nop unit) :=
   let p := mkPacket 1 nameA nameC nameB mock_port (of_string "x") in
   [ NCreate 0 1 100 2 90 1000; NCreate 1 0 100 2 90 1000; NCreate 1 2 100 2 90 1000;
     NCreate 2 1 100 2 90 1000;
